@@ -32,6 +32,19 @@ def collect_claims():
                     CLAIMED[fn[:-3].upper()] = (c['technique'], c['text'], c['note'])
 
 
+def _regenerated():
+    """properties whose check passes generated modules to core.prove (read from the property modules)"""
+    import glob, os, re
+    out = set()
+    here = os.path.dirname(os.path.abspath(__file__))
+    for fn in glob.glob(os.path.join(here, 'props', 'c[0-9][0-9].py')):
+        src = open(fn).read()
+        m = re.search(r'generated\s*=\s*(\[[^\]]*\]|GENERATED)', src)
+        if m and m.group(1) != '[]':
+            out.add(os.path.basename(fn)[:-3].upper())
+    return out
+
+
 def main():
     collect_claims()
     props = [json.loads(l) for l in open(os.path.join(VERIF, 'properties.jsonl'))]
@@ -68,9 +81,13 @@ def main():
             {'name': 'lean', 'path': 'lean', 'serves_properties': sorted(CLAIMED),
              'kind_free_text': 'Lean 4 project: executable models, generated definitions, proofs, property theorems, '
                                'compiled line-protocol drivers'},
-            {'name': 'translator', 'path': 'harness/translate.py', 'serves_properties': ['C15'],
-             'kind_free_text': 'Python AST -> Lean translator for the integer fragment; regenerates '
-                               'lean/PyPhysim/Generated on every run'},
+            {'name': 'translator', 'path': 'harness/translate.py',
+             'serves_properties': sorted(p for p in CLAIMED if p in _regenerated()),
+             'kind_free_text': 'Python AST -> Lean translator (harness/translate.py: integer fragment; plugins '
+                               'harness/gen/*.py: real-expression formulas, index idioms, literal tables, symbolic '
+                               'execution of Result / doWF into normal forms, effect tables of the cache classes); '
+                               'regenerates lean/PyPhysim/Generated on every run; bridge theorems in Properties/ prove '
+                               'the regenerated definitions equal to the hand models'},
             {'name': 'harness', 'path': 'harness', 'serves_properties': sorted(CLAIMED),
              'kind_free_text': 'correspondence (differential) harness, property oracles, verdict and evidence writer'},
         ],
